@@ -20,10 +20,10 @@ def directive(prop, q=(160, 100, 6), t=(1600, 1000, 12), par_exec=0):
             G.spec_directive(c, *G.small_programs(c, 30, 25, max_tasks=3, max_insts=4))
         else:
             G.spec_directive(c, *G.small_programs(c, 120, 0, max_tasks=4), name="dirbig")
-            G.spec_directive(c, *G.small_programs(c, 0, 40, max_insts=6), name="dirbigp", timeout=3400)
+            G.spec_directive(c, *G.small_programs(c, 0, 30, max_insts=6), name="dirbigp", timeout=3400)
         for r in range(rounds):
             G.pipeline(c, nflow // rounds if not c.quick else nflow, npar // rounds if not c.quick else npar, nscen,
-                       seed_off=r, par_exec=par_exec, model_traces=900 if c.quick else 6000)
+                       seed_off=r, par_exec=par_exec, model_traces=900 if c.quick else 3000)
         if prop == "C15":
             import known_probes
             known_probes.check_known(c, c.build_cff(), ("C15",))
